@@ -252,6 +252,56 @@ def normalise_index_loops(fn: ast.AST, new_names: Set[str]) -> int:
     return n
 
 
+def normalise_filter_loops(fn: ast.AST, new_names: Set[str], ref_names: Set[str]) -> int:
+    """`for x in [y for y in L if c(y)]: body`  ->  `for x in L: if c(x): body` (the filtered
+    list only existed to be iterated). When x is a new local and y is a name the reference
+    function uses, the loop variable takes the name y (unless y is read after the loop)."""
+    n = 0
+    for block in list(_blocks(fn)):
+        for st in block:
+            if not isinstance(st, ast.For) or st.orelse or not isinstance(st.target, ast.Name):
+                continue
+            it = st.iter
+            while isinstance(it, ast.Call) and isinstance(it.func, ast.Name) and it.func.id in (
+                    "list", "tuple") and len(it.args) == 1 and not it.keywords:
+                it = it.args[0]
+            if not isinstance(it, (ast.ListComp, ast.GeneratorExp)) or len(it.generators) != 1:
+                continue
+            g = it.generators[0]
+            if not isinstance(g.target, ast.Name) or not isinstance(it.elt, ast.Name) or \
+                    it.elt.id != g.target.id or not g.ifs or g.is_async:
+                continue
+            x, y = st.target.id, g.target.id
+            name = x
+            if x in new_names and y in ref_names and y != x:
+                end = getattr(st, "end_lineno", st.lineno)
+                later = any(isinstance(z, ast.Name) and z.id == y and isinstance(z.ctx, ast.Load)
+                            and getattr(z, "lineno", 0) > end for z in _walk_scope(fn))
+                inside = any(isinstance(z, ast.Name) and z.id == y for b_ in st.body
+                             for z in ast.walk(b_))
+                if not later and not inside:
+                    name = y
+            test: ast.AST = g.ifs[0] if len(g.ifs) == 1 else ast.BoolOp(op=ast.And(),
+                                                                       values=list(g.ifs))
+            test = _SubstNames({y: ast.Name(id=name, ctx=ast.Load())}).visit(copy.deepcopy(test))
+            body = st.body
+            if name != x:
+                body = [_SubstNames({x: ast.Name(id=name, ctx=ast.Load())}).visit(b_)
+                        for b_ in body]
+                if any(isinstance(z, ast.Name) and z.id == x and isinstance(z.ctx, ast.Store)
+                       for b_ in body for z in ast.walk(b_)):
+                    continue
+            guard = ast.If(test=test, body=body, orelse=[])
+            ast.copy_location(guard, st)
+            st.target = ast.Name(id=name, ctx=ast.Store())
+            st.iter = g.iter
+            st.body = [guard]
+            n += 1
+    if n:
+        ast.fix_missing_locations(fn)
+    return n
+
+
 # ------------------------------------------------------------------ new module constants
 def inline_module_constants(tree: ast.Module, new_names: Set[str]) -> int:
     env: Dict[str, ast.AST] = {}
@@ -293,42 +343,44 @@ def _strip_doc(body: List[ast.stmt]) -> List[ast.stmt]:
 
 
 def _as_expression(body: List[ast.stmt]) -> Optional[ast.AST]:
-    """`[x = e]* ; [if c: return A]* ; return B` as one expression, else None"""
+    """A side-effect-free body made of simple assignments, (nested) ifs and returns as ONE
+    expression: `if c: return A` + rest  ->  `A if c else <rest>`; fall-through of a branch
+    continues with what follows the `if`. None when anything else occurs or a path falls off the
+    end."""
     body = _strip_doc(body)
-    env: Dict[str, ast.AST] = {}
-    steps: List[Tuple[ast.AST, ast.AST]] = []
-    for i, st in enumerate(body):
-        last = i == len(body) - 1
-        if isinstance(st, ast.Assign) and len(st.targets) == 1 and isinstance(
-                st.targets[0], ast.Name) and not steps:
-            env[st.targets[0].id] = _SubstNames(env).visit(copy.deepcopy(st.value))
-            continue
-        if isinstance(st, ast.If) and not st.orelse and len(st.body) == 1 and isinstance(
-                st.body[0], ast.Return) and st.body[0].value is not None and not last:
-            steps.append((_SubstNames(env).visit(copy.deepcopy(st.test)),
-                          _SubstNames(env).visit(copy.deepcopy(st.body[0].value))))
-            continue
-        if isinstance(st, ast.If) and st.orelse and last:
-            # if c: return A else: return B
-            a = _as_expression(st.body)
-            b = _as_expression(st.orelse)
-            if a is None or b is None:
+    budget = [200]
+
+    def expr_of(stmts: List[ast.stmt], cont: Optional[ast.AST]) -> Optional[ast.AST]:
+        budget[0] -= 1
+        if budget[0] < 0:
+            return None
+        if not stmts:
+            return copy.deepcopy(cont) if cont is not None else None
+        st, rest = stmts[0], stmts[1:]
+        if isinstance(st, ast.Return):
+            return copy.deepcopy(st.value) if st.value is not None else None
+        if isinstance(st, ast.Pass):
+            return expr_of(rest, cont)
+        if isinstance(st, (ast.Assign, ast.AnnAssign)) and getattr(st, "value", None) is not None:
+            tg = st.targets[0] if isinstance(st, ast.Assign) else st.target
+            if not isinstance(tg, ast.Name) or (isinstance(st, ast.Assign) and
+                                                len(st.targets) != 1):
                 return None
-            e: ast.AST = ast.IfExp(test=_SubstNames(env).visit(copy.deepcopy(st.test)),
-                                   body=_SubstNames(env).visit(a),
-                                   orelse=_SubstNames(env).visit(b))
-            for t, v in reversed(steps):
-                e = ast.IfExp(test=t, body=v, orelse=e)
-            return e
-        if isinstance(st, ast.Return) and st.value is not None and last:
-            e = _SubstNames(env).visit(copy.deepcopy(st.value))
-            for t, v in reversed(steps):
-                # `if c: return A; return B` with boolean results reads best as and/or; keep
-                # the general conditional expression
-                e = ast.IfExp(test=t, body=v, orelse=e)
-            return e
+            e = expr_of(rest, cont)
+            if e is None:
+                return None
+            return _SubstNames({tg.id: st.value}).visit(e)
+        if isinstance(st, ast.If):
+            after = expr_of(rest, cont)
+            b_ = expr_of(st.body, after)
+            o_ = expr_of(st.orelse, after) if st.orelse else after
+            if b_ is None or o_ is None:
+                return None
+            return ast.IfExp(test=copy.deepcopy(st.test), body=b_, orelse=copy.deepcopy(o_))
         return None
-    return None
+    if not body or not any(isinstance(x, ast.Return) for st in body for x in _walk_scope(st)):
+        return None
+    return expr_of(body, None)
 
 
 def _all_paths_return(block: List[ast.stmt]) -> bool:
